@@ -97,6 +97,28 @@ Theorem C13_roundtrip_examples :
 Proof. exact roundtrip_examples. Qed.
 Print Assumptions C13_roundtrip_examples.
 
+(* Rust legacy scheme: _ZN <source-name>+ 17h<16 hex digits> E demangles to the path without the hash *)
+Theorem C13_roundtrip_rust_legacy_partial : forall a cs h, rust_okb a cs h = true ->
+  demangle (rust_mangle a cs h) = Str (join_sep (a :: cs)).
+Proof. exact roundtrip_rust. Qed.
+Print Assumptions C13_roundtrip_rust_legacy_partial.
+
+(* functions outside any namespace: _Z <source-name> <builtin type code>* demangles to the identifier *)
+Theorem C13_roundtrip_unscoped_partial : forall id params, unscoped_okb id params = true ->
+  demangle (unscoped_mangle id params) = Str id.
+Proof. exact roundtrip_unscoped. Qed.
+Print Assumptions C13_roundtrip_unscoped_partial.
+
+Theorem C13_roundtrip_examples2 :
+  rust_okb (str "foo") [str "bar"] (str "h05af221e174051e9") = true /\
+  rust_mangle (str "foo") [str "bar"] (str "h05af221e174051e9") = str "_ZN3foo3bar17h05af221e174051e9E" /\
+  join_sep [str "foo"; str "bar"] = str "foo::bar" /\
+  unscoped_okb (str "main_loop") (str "iPc") = false /\
+  unscoped_okb (str "main_loop") (str "ic") = true /\
+  unscoped_mangle (str "main_loop") (str "ic") = str "_Z9main_loopic".
+Proof. exact roundtrip_examples2. Qed.
+Print Assumptions C13_roundtrip_examples2.
+
 (* ---- "total and safe for every byte string" is FALSE of the code as found: witnesses *)
 
 (* C1 / D0 with no preceding name: strrchr(dd->new, ':') with dd->new == NULL *)
